@@ -20,9 +20,13 @@ from .model import hintsem as HS
 A = lambda n: ('a', n)
 
 ATOMS0 = ['int', 'bool', 'str', 'float', 'bytes', 'none', 'object', 'any', 'K', 'K2', 'N', 'T', 'TB', 'TC', 'P', 'E',
-          'G', 'GL', 'complex', 'NoneType']
+          'G', 'GL', 'complex', 'NoneType', 'IE', 'NL', 'TL', 'TU']
 LITS0 = [('lit', '1'), ('lit', "'a'"), ('lit', 'True'), ('lit', 'None'), ('lit', 'E.A'), ('lit', '1', "'a'", 'None'),
-         ('lit', '1', 'True'), ('lit', "b'x'", '0')]
+         ('lit', '1', 'True'), ('lit', "b'x'", '0'),
+         # every order of equal-valued members of different types (bool/int/IntEnum), and plain reorderings
+         ('lit', 'True', '1'), ('lit', 'False', '0', "'a'"), ('lit', '0', 'False', "'a'"), ('lit', 'IE.X', '1'),
+         ('lit', '1', 'IE.X'), ('lit', 'IE.X', 'True', '1'), ('lit', "'a'", '1'), ('lit', '1', "'a'"), ('lit', 'E.A', '1'),
+         ('lit', 'None', '1'), ('lit', 'IE.Y', '2', 'None')]
 
 CORE_C1 = ['list', 'Sequence', 'abc.MutableSequence', 'set', 'FrozenSet', 'abc.Set', 'deque', 'Collection',
            'abc.KeysView', 'ValuesView', 'Iterable', 'abc.Container', 'Reversible', 'Iterator', 'Counter']
@@ -47,6 +51,7 @@ def level0():
     u.append(('u', 'U', ('lit', "'a'"), ('lit', '1')))
     u.append(('u', 'B', ('lit', 'None'), A('K')))
     out += u
+    out += same_family_unions()
     for sp in ('b', 't'):
         for inner in (A('int'), A('K'), A('object'), A('any'), ('u', 'U', A('int'), A('str')), A('E')):
             out.append(('ty', sp, inner))
@@ -61,6 +66,34 @@ def level0():
     for g in ('G', 'GL'):
         for a in ('int', 'str', 'T'):
             out.append(('g', g, A(a)))
+    return out
+
+
+def same_family_unions():
+    """Unions whose members are subscriptions of the *same* factory (they collide under any key coarser than the
+    full child hint), in both orders, plus unions of literals / Annotated over the same base."""
+    i, s, k = A('int'), A('str'), A('K')
+    fams = [lambda c: ('c1', 'list', c), lambda c: ('c1', 'Sequence', c), lambda c: ('c1', 'set', c),
+            lambda c: ('c1', 'Collection', c), lambda c: ('c1', 'Iterable', c), lambda c: ('c1', 'deque', c),
+            lambda c: ('tv', 'b', c), lambda c: ('tf', 'b', c), lambda c: ('tf', 'b', c, c), lambda c: ('c2', 'dict', s, c),
+            lambda c: ('c2', 'dict', c, i), lambda c: ('c2', 'Mapping', s, c), lambda c: ('g', 'GL', c), lambda c: ('g', 'G', c),
+            lambda c: ('ty', 'b', c), lambda c: ('ann', c, ('is', 'truthy')), lambda c: ('c1', 'Counter', c),
+            lambda c: ('c2', 'ItemsView', s, c), lambda c: ('c1', 'ValuesView', c)]
+    out = []
+    for f in fams:
+        out.append(('u', 'U', f(i), f(s)))
+        out.append(('u', 'U', f(s), f(i)))
+        out.append(('u', 'U', f(i), f(s), A('none')))
+        out.append(('u', 'U', f(k), f(i), f(s)))
+    out += [('u', 'U', ('lit', '1'), ('lit', "'a'")), ('u', 'U', ('lit', 'True'), ('lit', '1')), ('u', 'U', ('lit', '1'), ('lit', 'True')),
+            ('u', 'U', ('ann', i, ('is', 'pos')), ('ann', i, ('not', ('is', 'pos')))),
+            ('u', 'U', ('ann', i, ('is', 'pos')), ('ann', s, ('is', 'truthy'))),
+            ('u', 'U', ('ann', s, ('is', 'truthy')), ('ann', i, ('is', 'pos'))),
+            ('u', 'U', ('ann', i, ('iseq', '1')), ('ann', i, ('is', 'never')), A('none')),
+            ('u', 'U', ('c1', 'list', i), ('c1', 'List', s)), ('u', 'U', ('tf', 'b', i), ('tf', 't', s)),
+            ('u', 'U', ('tf', 'b', i, s), ('tf', 'b', s, i)), ('u', 'U', ('tf', 'b', i), ('tf', 'b', i, i), ('tf', 'b')),
+            ('u', 'U', ('c2', 'dict', s, i), ('c2', 'dict', i, s)),
+            ('u', 'U', ('c1', 'list', ('c1', 'list', i)), ('c1', 'list', ('c1', 'list', s)))]
     return out
 
 
@@ -95,6 +128,11 @@ def tuples_fixed(reps, sp=('b', 't')):
         for a in reps:
             for b in reps:
                 out.append(('tf', s, a, b))
+    li = ('c1', 'list', A('int'))
+    out += [('tf', 'b', li, li), ('tf', 'b', li, A('int'), li), ('tf', 'b', A('int'), A('int'), A('str'), A('int')),
+            ('tf', 'b', ('u', 'O', A('int')), ('u', 'O', A('int'))), ('c2', 'dict', A('int'), A('int')),
+            ('c2', 'dict', ('tv', 'b', A('int')), ('tv', 'b', A('int'))), ('c2', 'Mapping', A('str'), A('str')),
+            ('tf', 'b', ('lit', '1'), ('lit', '1')), ('tf', 'b', ('lit', '1'), ('lit', 'True'))]
     r3 = reps[:3]
     for a in r3:
         for b in r3:
@@ -106,7 +144,8 @@ def tuples_fixed(reps, sp=('b', 't')):
 def level1(families='all'):
     c1 = CORE_C1 if families == 'core' else list(HS.C1)
     c2 = CORE_C2 if families == 'core' else list(HS.C2)
-    L0 = level0()
+    sfu = set(same_family_unions())
+    L0 = [t for t in level0() if t not in sfu]
     R0 = reps0()
     out = containers_over(L0, c1, c2, KEYS0 if families == 'all' else KEYS0[:3], R0)
     out += tuples_fixed(R0[:8] if families == 'all' else R0[:4], ('b', 't') if families == 'all' else ('b',))
@@ -205,6 +244,28 @@ def hints(tier: str):
             if t not in seen:
                 seen.add(t)
                 out.append(t)
+    return out
+
+
+def shards(hints, n):
+    """Split into n shards such that hints which are *equal as Python objects* (Literal[1, True] == Literal[True, 1],
+    Union reorderings, typing/builtin spellings that compare equal) never share a shard: beartype memoises per hint
+    equality, so in one process only the first of an equality class is ever compiled.  Each shard must run in a fresh
+    process (Ctx.pmap(fresh=True))."""
+    out = [[] for _ in range(n)]
+    groups = {}
+    for idx, t in enumerate(hints):
+        try:
+            h = HS.build(t)
+            hash(h)
+        except Exception:
+            h = ('unhashable', idx)
+        g = groups.setdefault(h, [])
+        g.append(idx)
+    for gi, (h, idxs) in enumerate(groups.items()):
+        base = idxs[0]
+        for j, idx in enumerate(idxs):
+            out[(base + j) % n].append(hints[idx])
     return out
 
 
